@@ -612,6 +612,7 @@ pub fn main(mode: Mode) {
                     tier,
                     rule: "client-level stacks of 0-2 and per-request stacks of 0-4 middlewares (pass / short-circuit / request-issuing through the inner client, also with 0-2 middlewares of its own on the issued request, sent by await / send(built) / send(clone of built) / recv_bytes / header-adding / retrying = running the rest of the chain 2-3 times / Redirect with attempts 0..=255 at any position), POST, GET, PUT, DELETE, PATCH or OPTIONS with a body (bytes, or a reader of known or unknown length) and a header of the app to one of 8 URLs, a served graph answering each URL with a status and an optional Location (absolute, relative, ../, /rooted, query-only, scheme-relative, empty, invalid, missing) or a shell error, chains of two relative hops built on purpose; capability send, capability send_async and command build; non-trivial = >= 2 middleware kinds in the stack, or a followed chain of >= 2 hops with a relative one under Redirect(>=2); distinct = distinct case",
                     assumptions: vec![
+                        "the command API runs per-request middleware since /repo 589ecce (before, it ignored it: fixed finding command-api-ignores-middleware); it has no client-level middleware".into(),
                         "expected URL of a hop = RFC 3986 resolution of Location against the URL that answered (url::Url::join)".into(),
                         "a redirect status without Location is unspecified: only the bounds (probes <= attempts, one real request, one outcome) are checked".into(),
                         "probes are sent through the inner client, i.e. without the remaining middleware, and without the body (documented in the middleware source)".into(),
